@@ -85,7 +85,7 @@ def pred_overlay(ops, impl):
             v = stack[-1].get(unhex(t[1]))
             exp = "none" if v is None else "some " + hx(v)
         elif t[0] == "range":
-            exp = fmt(omap_range(stack[-1], unhex_opt(t[1]), unhex_opt(t[2]), t[3]))
+            exp = fmt(omap_range(stack[-1], unhex_opt(t[1]), unhex_opt(t[2]), t[3])[(int(t[4]) if len(t) > 4 else 0):])
         elif t[0] in ("keys", "values"):
             i = 0 if t[0] == "keys" else 1
             exp = "[" + ",".join(hx(r[i]) for r in omap_range(stack[-1], unhex_opt(t[1]), unhex_opt(t[2]), t[3])) + "]"
@@ -185,7 +185,7 @@ def pred_views(ops, impl):
                     exp = "|".join(outs)
             elif t[0] == "vrange":
                 win = {k[len(pfx):]: v for k, v in raw.items() if k.startswith(pfx)}
-                exp = fmt(omap_range(win, unhex_opt(t[3]), unhex_opt(t[4]), t[5]))
+                exp = fmt(omap_range(win, unhex_opt(t[3]), unhex_opt(t[4]), t[5])[(int(t[6]) if len(t) > 6 else 0):])
             elif t[0] in ("vkeys", "vvalues"):
                 win = {k[len(pfx):]: v for k, v in raw.items() if k.startswith(pfx)}
                 i = 0 if t[0] == "vkeys" else 1
